@@ -129,6 +129,9 @@ func runC01(args []string) error {
 	for _, c := range c1BoundaryCases(r.fork(), nBound) {
 		add(c)
 	}
+	for _, c := range c1ShapeCases(r.fork(), sm.count) {
+		add(c)
+	}
 	for _, c := range c1RegionCases(r.fork(), *tier == "thorough") {
 		add(c)
 	}
@@ -292,16 +295,43 @@ func runC01(args []string) error {
 			if reg := c1ClassifyRegion(c.Src); reg != "" && region == "" {
 				note = "classified syntactically: " + reg
 			}
-			if !*noShrink && time.Since(t0) < 70*time.Second {
-				small := c1Shrink(c.Src, 20*time.Second)
-				if small != c.Src {
-					in["shrunk"] = small
-				}
-			}
 		}
 		sm.RefMismatches = append(sm.RefMismatches, refMismatch{ID: c.ID, Region: region, Input: in,
 			Impl: map[string]string{"stdout": clip(c.Impl.Stdout, 1500), "end": c.Impl.End},
 			Ref:  map[string]string{"stdout": clip(c.Ref.Stdout, 1500), "end": c.Ref.End}, Note: note})
+	}
+	// unexplained mismatches first, the ones that shrink best (boundary cells, short sources) in front:
+	// the driver reports the first one, with a shrunk program
+	srcOf := func(m refMismatch) string {
+		if mm, ok := m.Input.(map[string]any); ok {
+			if s, ok := mm["source"].(string); ok {
+				return s
+			}
+		}
+		return ""
+	}
+	rank := func(m refMismatch) int {
+		if m.Region != "" {
+			return 1 << 30
+		}
+		n := len(srcOf(m))
+		if mm, ok := m.Input.(map[string]any); ok && mm["stream"] == "main" {
+			n += 1 << 20
+		}
+		return n
+	}
+	sort.SliceStable(sm.RefMismatches, func(i, j int) bool { return rank(sm.RefMismatches[i]) < rank(sm.RefMismatches[j]) })
+	if !*noShrink {
+		for i := 0; i < len(sm.RefMismatches) && i < 2; i++ {
+			m := sm.RefMismatches[i]
+			if m.Region != "" || time.Since(t0) > 75*time.Second {
+				break
+			}
+			src := srcOf(m)
+			if small := c1Shrink(src, 25*time.Second); small != src {
+				m.Input.(map[string]any)["shrunk"] = small
+			}
+		}
 	}
 	sm.ImplComparisons = 0
 	// ---- Coq cases (fragment stream + loop-variable region programs of the fragment)
